@@ -49,6 +49,12 @@ pub open spec fn all_zero(b: Seq<u8>) -> bool { forall|i: int| 0 <= i < b.len() 
 pub broadcast axiom fn axiom_scalar_le_len(s: Scalar) ensures (#[trigger] scalar_le(s)).len() == 32, le_canonical(scalar_le(s)), scalar_of_le(scalar_le(s)) == s;
 pub broadcast axiom fn axiom_scalar_of_le(b: Seq<u8>) requires le_canonical(b) ensures scalar_le(#[trigger] scalar_of_le(b)) == b;
 pub broadcast axiom fn axiom_scalar_le_zero(s: Scalar) ensures all_zero(#[trigger] scalar_le(s)) <==> s.val() == 0;
+/// what `PrimeField::from_repr` yields for 32 bytes — ASSUMED [A-GROUP], as read from blstrs_plus /
+/// bls12_381_plus 0.8.18 (both back ends): the canonical decoding when the bytes are a canonical
+/// little-endian encoding, and otherwise the bytes REDUCED modulo r (`from_okm` of the zero-extended
+/// big-endian form), rejected only if that is zero.  So `from_repr` does NOT reject non-canonical input.
+pub uninterp spec fn scalar_read(b: Seq<u8>) -> Scalar;
+pub broadcast axiom fn axiom_scalar_read_canonical(b: Seq<u8>) requires le_canonical(b) ensures #[trigger] scalar_read(b) == scalar_of_le(b);
 pub broadcast axiom fn axiom_canonical_len(b: Seq<u8>) ensures #[trigger] le_canonical(b) ==> b.len() == 32;
 #[verifier::external_body]
 pub struct ScalarRepr { _p: [u8; 0] }
@@ -70,7 +76,8 @@ impl Scalar {
     /// `None` unless the bytes are a canonical encoding
     #[verifier::external_body]
     pub fn from_repr(repr: ScalarRepr) -> (r: CtOption<Scalar>)
-        ensures r.is_some_spec() == le_canonical(repr@), r.is_some_spec() ==> r.value() == scalar_of_le(repr@)
+        ensures le_canonical(repr@) ==> r.is_some_spec(), r.is_some_spec() ==> r.value() == scalar_read(repr@),
+            !le_canonical(repr@) && r.is_some_spec() ==> r.value().val() != 0
     { unimplemented!() }
     #[verifier::external_body]
     pub fn default() -> (s: Scalar) ensures s.val() == 0 { unimplemented!() }
